@@ -588,7 +588,6 @@ theorem C07_leaf_actual (c : Conv) (hc : c.recordsInput = true) (v : Val) {t : E
     split at h
     · split at h <;> cases h; rfl
     · split at h <;> cases h; rfl
-    · cases h; rfl
   case tuple cs =>
     simp only [colC] at h
     split at h
